@@ -1,17 +1,17 @@
 #!/usr/bin/env python3
 """dev/seedrun.py <seed id> <checks...> — apply seeded/<id>/patch.diff to a scratch copy of /repo's tree and run checks there"""
 import os, sys, shutil, subprocess, tempfile
-sys.path.insert(0, "/verif")
+sys.path.insert(0, os.path.dirname(os.path.dirname(os.path.abspath(__file__))))
 from rtcpverif import controls
 sid, checks = sys.argv[1], sys.argv[2:]
 tmp = tempfile.mkdtemp(prefix="rtcpseed")
 try:
     controls._copy_tree(tmp)
-    r = subprocess.run(["patch", "-p1", "-s", "-f", "-i", f"/verif/seeded/{sid}/patch.diff"], cwd=tmp, capture_output=True, text=True)
+    r = subprocess.run(["patch", "-p1", "-s", "-f", "-i", os.path.join(controls.VERIF, "seeded", sid, "patch.diff")], cwd=tmp, capture_output=True, text=True)
     print("patch:", r.returncode, r.stdout[:200])
     env = dict(os.environ, RTCP_REPO=tmp, RTCP_EVIDENCE_DIR=os.path.join(tmp, "evidence"))
     for c in checks:
-        r = subprocess.run(["/verif/check", c], env=env, capture_output=True, text=True)
+        r = subprocess.run([os.path.join(controls.VERIF, "check"), c], env=env, capture_output=True, text=True)
         print(f"== {c}: exit {r.returncode}")
         for l in r.stdout.splitlines():
             if l.startswith("  ") and not l.startswith("  floor"):
